@@ -486,6 +486,16 @@ class StridedInterval:
 
         raise ClaripyVSAError("WTF")
 
+    @staticmethod
+    def _rshift_stride(stride: int, shift_amount: int) -> int:
+        """
+        The stride of an interval shifted right: the shifted values stay equally spaced only if the stride is a
+        multiple of 2**shift_amount (0, 5, 10, 15 >> 1 is 0, 2, 5, 7).
+        """
+        if stride % (2**shift_amount) == 0:
+            return max(stride >> shift_amount, 1)
+        return 1
+
     def _rshift_logical(self, shift_amount: int) -> StridedInterval:
         """
         Logical shift right with a concrete shift amount
@@ -507,7 +517,7 @@ class StridedInterval:
         if len(ssplit) == 1:
             lower = self.lower_bound >> shift_amount
             upper = self.upper_bound >> shift_amount
-            stride = max(self.stride >> shift_amount, 1)
+            stride = StridedInterval._rshift_stride(self.stride, shift_amount)
 
             return StridedInterval(
                 bits=self.bits, lower_bound=lower, upper_bound=upper, stride=stride, uninitialized=self.uninitialized
@@ -541,7 +551,7 @@ class StridedInterval:
 
             lower = self.lower_bound >> shift_amount
             upper = self.upper_bound >> shift_amount
-            stride = max(self.stride >> shift_amount, 1)
+            stride = StridedInterval._rshift_stride(self.stride, shift_amount)
             mask = (2**shift_amount - 1) << (self.bits - shift_amount)
 
             if highest_bit_set:
